@@ -4,6 +4,7 @@ package main
 
 import (
 	"fmt"
+	"sort"
 	"strings"
 
 	"golang.org/x/tools/go/ssa"
@@ -162,6 +163,29 @@ func c15(p *Prog, r *Report) {
 			ok = why == ""
 		}
 		r.Check(ok, R1, "BlindKeySignWithContext forwards (privateKey, blind, message, context)", p.Pos(fn.Pos()), "arguments forwarded in the right slots", why)
+	}
+
+	// R5: keys, blinds and contexts are inputs only - the same key object gives
+	// the same blinded signature every time (a key wiped or rewritten by one
+	// blinded signing makes the next one a signature under another key)
+	const R5 = "C15.key-material-is-read-only"
+	r.Rule(R5, "the six blinding entry points never write memory of or reachable from their key, blind, message or context arguments (mod/ref summaries; appends behind len are C16's)", 6)
+	eff := p.Effects()
+	for _, name := range []string{"~/ed25519.BlindPublicKeyWithContext", "~/ed25519.BlindPublicKey", "~/ed25519.UnblindPublicKeyWithContext", "~/ed25519.UnblindPublicKey", "~/ed25519.BlindKeySignWithContext", "~/ed25519.BlindKeySign"} {
+		fn := anchor(p, r, R5, name)
+		if fn == nil {
+			continue
+		}
+		sm := eff.Summary(fn)
+		var bad []string
+		for k, w := range sm.All {
+			if k.kind == 'G' || k.op == "builtin.append" {
+				continue
+			}
+			bad = append(bad, fmt.Sprintf("argument #%d: %s", k.idx, eff.describe(w)))
+		}
+		sort.Strings(bad)
+		r.Check(len(bad) == 0, R5, shortName(fn)+": arguments are not written", p.Pos(fn.Pos()), "no may-write through any argument", strings.Join(bad, "; "))
 	}
 
 	// R3 determinism
